@@ -2,8 +2,13 @@
 # Everything generated goes to /verif/build or stays beside the sources (ignored by git).
 COQJOBS ?= 16
 BUILD := build
-.PHONY: all coq driver clean
-all: coq driver
+.PHONY: all all_locked coq driver clean
+# the whole build runs under an exclusive lock so that checks started in parallel (each of them
+# begins with `make -C /verif all`) never see a half-written Makefile.coq, .vo file or driver
+all:
+	@mkdir -p $(BUILD)
+	@flock $(BUILD)/.build.lock $(MAKE) --no-print-directory all_locked
+all_locked: coq driver
 
 coq:
 	cd coq && coq_makefile -f _CoqProject -o Makefile.coq > /dev/null
